@@ -141,7 +141,7 @@ mutual
       ⟨[.slabel sw i] ++ b.code ++ (if b.labelLast then [.brk sw] else []) ++ [.sjmp sw], b.st, false⟩
     | ks, e :: es, sw, i, done, st =>
       let keys := ks.headD []
-      let b := compile env e done (!env.dry) (!env.dry && keys.card > 1) st
+      let b := compile env e done true (decide (keys.card > 1)) st
       let r := compileCases env ks.tail es sw (i + 1) done b.st
       ⟨[.slabel sw i] ++ b.code ++ (if b.labelLast then [.brk sw] else []) ++ [.sjmp sw] ++ r.code,
         r.st, false⟩
